@@ -16,7 +16,7 @@ Import ListNotations.
 
 (* which variant of the code the correspondence compares with; the integrator
    flips this when the fix commit for F04 (proposed_fixes/C03-F04.diff) lands *)
-Definition code_fixed_F04 := false.
+Definition code_fixed_F04 := true.
 
 Inductive dres := DVal (k : nat) | DErr.
 Inductive pentry := PE (cs : list chunk) (reg : bool) (d : dres).
